@@ -135,7 +135,7 @@ class Spec(PropSpec):
     subsys = "Link"
     props_file = "C08.v"
     theorems = ["c08_held_not_delivered", "c08_hold_parks", "c08_send_while_held_parks", "c08_at_most_once",
-                "c08_conservation", "c08_exactly_once", "c08_release_order", "c08_links_view", "c08_unheld_links_untouched", "c08_topology_at_most_once", "c08_topology_mass",
+                "c08_conservation", "c08_exactly_once", "c08_release_order", "c08_links_view", "c08_unheld_links_untouched", "c08_topology_at_most_once", "c08_topology_mass", "c08_topology_held_not_delivered",
                 "c08_nonvacuous"]
     consts = LINK_CONSTS
     anchors = LINK_ANCHORS + [("crates/turmoil/src/top.rs", "deliver_all"), ("crates/turmoil/src/top.rs", "deliver")]
